@@ -14,7 +14,7 @@ Put(f, k, v) == TLCEval([x \in (DOMAIN f) \cup {k} |-> IF x = k THEN v ELSE f[x]
 Range(s) == {s[i] : i \in DOMAIN s}
 
 ObsInit == [cfg |-> [props |-> <<>>, clients |-> <<>>], up |-> <<>>, everUp |-> {}, sub |-> <<>>, got |-> <<>>, gotN |-> <<>>, subN |-> <<>>,
-            asked |-> <<>>, cst |-> <<>>, holder |-> <<>>, healed |-> FALSE, rounds |-> 0, bound |-> 0 - 1, flags |-> {}]
+            asked |-> <<>>, cst |-> <<>>, holder |-> <<>>, marks |-> <<>>, pos |-> <<>>, healed |-> FALSE, rounds |-> 0, bound |-> 0 - 1, flags |-> {}]
 ObsReset(cfg) == [ObsInit EXCEPT !.cfg = cfg, !.up = [c \in Range(cfg.clients) |-> FALSE],
                                  !.cst = [c \in Range(cfg.clients) |-> "Connecting"]]
 Props(o) == Range(o.cfg.props)
@@ -36,7 +36,10 @@ FoldEvs(o, evs, i) ==
        ELSE LET asked == e.id \in DOMAIN o.asked
                 \* interference alone never disconnects: a disconnect nobody asked for is only legitimate as a timeout
                 spurious == ~asked /\ ~o.cfg.allow_timeouts
-            IN FoldEvs(FlagIf(FlagIf([o EXCEPT !.up = Put(@, e.id, FALSE), !.holder = [x \in (DOMAIN @) \ {e.id} |-> @[x]]], ~was, <<"C20", "EventsOnce">>),
+                \* what was submitted for this id and the session did not deliver died with the session: a later session of the
+                \* same id (a restarted client) starts a new ordered stream -- remember where in the submissions it starts
+                cut == [k \in DOMAIN o.sub |-> IF NetId(o, k[1]) = e.id THEN Get(o.marks, k, {}) \cup {Len(o.sub[k]) + 1} ELSE Get(o.marks, k, {})]
+            IN FoldEvs(FlagIf(FlagIf([o EXCEPT !.up = Put(@, e.id, FALSE), !.holder = [x \in (DOMAIN @) \ {e.id} |-> @[x]], !.marks = cut], ~was, <<"C20", "EventsOnce">>),
                               spurious, <<"C20", "OnlyTimeouts">>), evs, i + 1)
 
 ObsSStep(o, e) ==
@@ -78,6 +81,13 @@ ObsRecv(o, e) ==
         g == Append(Get(o.got, k, <<>>), e.cid)
         n == Get(o.gotN, <<k, e.cid>>, 0) + 1
         s == Get(o.sub, k, <<>>)
+        \* ordered channel: what is obtained continues the submissions of the session it belongs to (no gap, no reordering), or
+        \* is the first submission of a later session of this id (the rest of the earlier session died with it)
+        p0 == Get(o.pos, k, 0)
+        later == {m \in Get(o.marks, k, {}) : m > p0 + 1 /\ m <= Len(s) /\ s[m] = e.cid}
+        nextPos == IF p0 + 1 <= Len(s) /\ s[p0 + 1] = e.cid THEN p0 + 1
+                   ELSE IF later # {} THEN CHOOSE m \in later : \A m2 \in later : m <= m2
+                   ELSE 0
         \* C11 across the full stack: a message is obtained only under the id of the client that sent it, and everything obtained
         \* under one id between its Connected and Disconnected events comes from ONE client (the holder of that session)
         foreign == e.cid >= 0 /\ subs = {} /\ \E z \in DOMAIN o.subN : z[2] = e.cid /\ z[1][1] \notin sameId
@@ -85,10 +95,10 @@ ObsRecv(o, e) ==
         mixed == e.dir = "cs" /\ subs # {} /\ h # 0 /\ h # x
         F == (IF Get(o.subN, <<k, e.cid>>, 0) = 0 \/ mixed THEN {<<"C20", "E2E_Same">>} ELSE {})
              \cup (IF foreign \/ mixed THEN {<<"C11", "Isolation">>} ELSE {})
-             \cup (IF e.ch = 2 /\ ~(Len(g) <= Len(s) /\ s[Len(g)] = e.cid) THEN {<<"C20", "E2E_Ordered">>} ELSE {})
+             \cup (IF e.ch = 2 /\ nextPos = 0 THEN {<<"C20", "E2E_Ordered">>} ELSE {})
              \* reliable: exactly once; unreliable: at most once (netcode replay protection removes duplicates and replays)
              \cup (IF n > Get(o.subN, <<k, e.cid>>, 0) THEN {<<"C20", "E2E_Once">>} ELSE {})
-    IN Flag([o EXCEPT !.got = Put(@, k, g), !.gotN = Put(@, <<k, e.cid>>, n),
+    IN Flag([o EXCEPT !.got = Put(@, k, g), !.gotN = Put(@, <<k, e.cid>>, n), !.pos = IF e.ch = 2 /\ nextPos # 0 THEN Put(@, k, nextPos) ELSE @,
                       !.holder = IF e.dir = "cs" /\ subs # {} /\ h = 0 THEN Put(@, id, x) ELSE @], F)
 
 ObsHeal(o, e) == [o EXCEPT !.healed = TRUE, !.rounds = 0, !.bound = e.bound]
